@@ -21,7 +21,7 @@ cp "$sd/demo_test.go" "$pkgdir/zz_seed_demo_test.go"
 go test -vet=off -count=1 "./$pkgdir/" >"$wt.clean.log" 2>&1 || { echo "$pid-$n: demo FAILS on the clean tree (see $wt.clean.log)"; fin; exit 1; }
 rm "$pkgdir/zz_seed_demo_test.go"
 git apply "$sd/patch.diff" 2>/dev/null || patch -p1 -s -F3 < "$sd/patch.diff" || { echo "$pid-$n: patch does not apply to HEAD"; fin; exit 1; }
-find . -name '*.orig' -delete; git diff > "$wt.rebased.diff"
+find . -name '*.orig' -delete; git add -A -N . >/dev/null 2>&1; git diff > "$wt.rebased.diff"
 go build ./... || { echo "$pid-$n: does not build"; fin; exit 1; }
 go test -vet=off -count=1 ./pkg/... 2>&1 | grep -E "^(FAIL[[:space:]]+github|--- FAIL)" | grep -v "pkg/util/json" > "$wt.suite.log"
 [ -s "$wt.suite.log" ] && { echo "$pid-$n: the repository suite fails with the patch:"; head -5 "$wt.suite.log"; fin; exit 1; }
